@@ -319,7 +319,31 @@ def task_core_core_der(ctx):
     ctx.assume_note("chain rule: r_ij = |X_j - X_i|/a0 and x_ij = (X_j - X_i)/|X_j - X_i| give d r_ij/d X_i = -x_ij/a0 (task chain_lemma)")
 
 
-def _contraction(ctx, padded):
+def replay_uhf_batch_forces(model):
+    """real code: analytical vs reverse-mode forces for a UHF batch of two different doublets (CH3, distorted CH3)."""
+    import torch
+    from seqm.seqm_functions.constants import Constants
+    from seqm.Molecule import Molecule
+    from seqm.ElectronicStructure import Electronic_Structure
+
+    torch.set_default_dtype(torch.float64)
+    species = torch.tensor([[6, 1, 1, 1], [6, 1, 1, 1]])
+    coords = torch.tensor([[[0.0, 0, 0.05], [1.08, 0, 0], [-0.54, 0.94, 0], [-0.54, -0.94, 0]], [[0.0, 0, 0.15], [1.12, 0.05, 0], [-0.50, 0.98, 0.03], [-0.58, -0.90, -0.04]]])
+
+    def forces(analytical):
+        params = {"method": "AM1", "scf_eps": 1e-10, "scf_converger": [1], "sp2": [False, 1e-5], "elements": [0, 1, 6], "learned": [], "pair_outer_cutoff": 1e10, "eig": True, "UHF": True}
+        if analytical:
+            params["analytical_gradient"] = [True]
+        mol = Molecule(Constants(), params, coords.clone(), species, mult=torch.tensor([2, 2]))
+        Electronic_Structure(params)(mol)
+        return mol.force.detach().clone()
+
+    fa, fb = forces(True), forces(False)
+    d = float((fa - fb).abs().max())
+    return {"reproduced": bool(d > 1e-5), "input": "AM1 UHF batch [CH3, distorted CH3], doublets", "max|analytical - reverse-mode| eV/A": d}
+
+
+def _contraction(ctx, padded, uhf=False):
     """O4 (Dewar-Yamaguchi contraction): with the density fixed, the gradient assembled from the AO-basis derivative blocks
     equals the first-order variation of  elec_energy(P, fock(P, M, w), Hcore) + pair terms  computed with the REAL fock and
     elec_energy (the energy is linear in (M, w) at fixed P, so the variation is the same functional evaluated on the
@@ -332,6 +356,18 @@ def _contraction(ctx, padded):
     ff = ctx.under_contract("seqm.seqm_functions.fock:fock")
     fe = ctx.under_contract("seqm.seqm_functions.energy:elec_energy")
     d, P, Mfull, M, w, onec = fock_inputs(padded)
+    if uhf:
+        ffu = ctx.under_contract("seqm.seqm_functions.fock_u_batch:fock_u_batch")
+        n_ = 4 * d.molsize
+        P = st.zeros(d.nmol, 2, n_, n_)
+        Pc = fock_inputs(padded)[1]
+        for m in range(d.nmol):
+            for s_, nm in enumerate(("Pa", "Pb")):
+                for i in range(n_):
+                    for j in range(i, n_):
+                        # same sparsity as the closed-shell trial density (nothing on padding / hydrogen p slots), different values per spin
+                        if isinstance(Pc.a[m, i, j], Sym) and not (Pc.a[m, i, j].n.op == "const" and Pc.a[m, i, j].n.val == 0):
+                            P.a[m, s_, i, j] = P.a[m, s_, j, i] = real("%s_%d_%d_%d" % (nm, m, i, j))
     npairs = len(d.pairs)
     ov = st.symbolic((npairs, 3, 4, 4), "ov")      # 2 * d M_AB / d X_i  (= (beta_i+beta_j) dS/dX_i, see overlap_der_finiteDiff)
     wx = st.symbolic((npairs, 3, 10, 10), "wx")    # d w / d X_i
@@ -368,8 +404,8 @@ def _contraction(ctx, padded):
                     M1.a[bj] = M1.a[bj] + sgn[k] * e2.a[k, c]
                     w1.a[k] = sgn[k] * wx.a[k, c]
                     nuc = nuc + sgn[k] * pg.a[k, c]
-                F1 = ff(d.nmol, d.molsize, P, M1, d.maskd, d.mask, d.idxi, d.idxj, w1, None, zero_onec, zero_onec, zero_onec, zero_onec, zero_onec, "AM1",
-                        None, None, None, d.Z, None, None)
+                F1 = (ffu if uhf else ff)(d.nmol, d.molsize, P, M1, d.maskd, d.mask, d.idxi, d.idxj, w1, None, zero_onec, zero_onec, zero_onec, zero_onec, zero_onec, "AM1",
+                                          None, None, None, d.Z, None, None)
                 H1 = M1.reshape(d.nmol, d.molsize, d.molsize, 4, 4).transpose(2, 3).reshape(d.nmol, 4 * d.molsize, 4 * d.molsize)
                 Ee = fe(P, F1, H1)
                 specs[(a, c)] = Ee.a[m] + nuc
@@ -380,15 +416,27 @@ def _contraction(ctx, padded):
         ctx.error("paths", "%r %s" % ([p.raised for p in ex.paths], ex.paths[0].notes.get("traceback", "")[-800:] if ex.paths else ""))
         return
     grad, specs = ex.paths[0].value
-    tag = "padded" if padded else "dense"
+    tag = ("padded" if padded else "dense") + (".uhf" if uhf else "")
     for a, (m, ia, z) in enumerate(d.flat):
         for c in range(3):
-            ctx.prove_eq("%s.grad[mol%d,atom%d,%d]=variation-of-the-energy-functional" % (tag, m, ia, c), grad.a[m, ia, c], specs[(a, c)], shape="batch " + ("[OHH, HH+pad]" if padded else "[OH, HH]"))
+            ctx.prove_eq("%s.grad[mol%d,atom%d,%d]=variation-of-the-energy-functional" % (tag, m, ia, c), grad.a[m, ia, c], specs[(a, c)], shape="batch " + ("[OHH, HH+pad]" if padded else "[OH, HH]"),
+                         replay=replay_uhf_batch_forces if uhf else None, classify=(lambda m_, r: "uhf-batch-layout") if uhf else None)
     if padded:
         for c in range(3):
-            ctx.prove_eq("padded.grad[padding-slot,%d]=0" % c, grad.a[1, 2, c], 0)
+            ctx.prove_eq(tag + ".grad[padding-slot,%d]=0" % c, grad.a[1, 2, c], 0)
     ctx.canary_eq(tag + ".sign-of-second-atom", grad.a[0, 1, 0], specs[(0, 0)])
     ctx.assume_note("interface precondition: overlap_KAB_x = (beta_i+beta_j) dS/dX_i = 2 dM_AB/dX_i (task overlap_scaling); e1b_x/e2a_x carry the upper triangle; all *_x blocks are derivatives w.r.t. the pair's first atom and the pair terms depend on X_j - X_i only (translation: dE/dX_j = -dE/dX_i)")
+
+
+def task_contraction_uhf(ctx):
+    """O4, unrestricted reference: the contraction with different alpha / beta densities (batch of two molecules) equals the
+    variation of the real open-shell elec_energy(P, fock_u_batch(P))."""
+    _contraction(ctx, False, uhf=True)
+
+
+def task_contraction_uhf_padded(ctx):
+    """O4, unrestricted reference on a zero-padded batch."""
+    _contraction(ctx, True, uhf=True)
 
 
 def task_contraction(ctx):
@@ -448,5 +496,5 @@ def task_overlap_scaling(ctx):
     ctx.undecided_clause("accuracy of the finite-difference overlap derivative itself (step 1e-5 A)")
 
 
-TASKS_QUICK = ["chain_lemma", "core_core_der", "prologue", "contraction", "contraction_padded", "overlap_scaling", "der_XX_x", "der_XX_y", "der_XX_z", "der_XH_HH"]
+TASKS_QUICK = ["chain_lemma", "core_core_der", "prologue", "contraction", "contraction_padded", "contraction_uhf", "contraction_uhf_padded", "overlap_scaling", "der_XX_x", "der_XX_y", "der_XX_z", "der_XH_HH"]
 TASKS_THOROUGH = TASKS_QUICK
